@@ -12,10 +12,15 @@ VARIABLE l
 Init == l = 1
 
 Strip(rs) == [k \in 1..Len(rs) |-> [kind |-> rs[k].kind, idx |-> rs[k].idx]]
+\* a connection's serve loop does not tell its handler how the stream ended: only the
+\* delivered messages are compared there, and that the loop ended
+Msgs(rs) == SelectSeq(Strip(rs), LAMBDA r : r.kind = "msg")
+Ended(rs) == Len(rs) > 0 /\ rs[Len(rs)].kind \in {"eof", "err"}
 Cons(rs)  == [k \in 1..Len(rs) |-> rs[k].consumed]
 Reasons(e) ==
   LET x == Expected(e.lens, e.total, 20) IN
-    (IF Strip(e.results) # Strip(x) THEN <<"results">> ELSE <<>>)
+    (IF (e.exact /\ Strip(e.results) # Strip(x)) \/ (~e.exact /\ (Msgs(e.results) # Msgs(x) \/ ~Ended(e.results)))
+     THEN <<"results">> ELSE <<>>)
  \o (IF e.exact /\ Strip(e.results) = Strip(x) /\ Cons(e.results) # Cons(x) THEN <<"consumed">> ELSE <<>>)
  \o (IF \E k \in 1..Len(e.results) : ~e.results[k].pure THEN <<"mixed">> ELSE <<>>)
 
